@@ -42,6 +42,27 @@ def handmade(rnd):
     return fs
 
 
+def deep_cases(rnd, start):
+    """nested constraints 5, 6 and 7 levels deep on a chain graph, every level failing"""
+    names = ["c%d" % k for k in range(10)]
+    world = {"targets": names[:2],
+             "nodes": {n: {"val": [False, k % 2 == 0, False, True], "kids": {"child": [names[k + 1]] if k + 1 < len(names) else [],
+                                                                            "other": [names[k + 2]] if k + 2 < len(names) else []}}
+                       for k, n in enumerate(names)}}
+    out = []
+    for j, depth in enumerate((5, 6, 7)):
+        f = {"k": "and", "xs": [atom(1), atom(3)]}
+        for lvl in range(depth):
+            f = {"k": "q", "q": "nested", "n": 0, "p": "child" if (lvl + j) % 3 else "other", "x": f}
+        i = start + j
+        fs = [{"fid": "deep%d" % depth, "ast": f}, {"fid": "shallow%d" % depth, "ast": atom(1)}]
+        out.append({"id": "c12-%04d" % i, "world": world, "kinds": [0, 7, 11, 3], "formulas": fs, "spell": 0,
+                    "level": {"deep%d" % depth: ["violation", "warning", "info"][j], "shallow%d" % depth: "violation"},
+                    "lexical": {n: {"range": [k, 1, k + 1, 2], "nodeLevel": True, "propLevel": False} for k, n in enumerate(names)} if j != 1 else {},
+                    "hasSource": j != 1, "root": "file:///root.raml", "additional": {}, "rangeStyle": j})
+    return out
+
+
 def make_case(i, rnd, formulas, lexical_mode):
     natoms = 4
     world = c01.gen_world(rnd, natoms, rnd.choice([6, 10, 16]))
@@ -94,6 +115,7 @@ def run(tier):
         else:
             formulas = [c01.gen_bounded_formula(rnd, rnd.choice([2, 3, 4]), 4, 3) for _ in range(5)]
         cases.append(make_case(i, rnd, formulas, i % 3))
+    cases.extend(deep_cases(rnd, len(cases)))
     obs = vlib.run_harness("reporttree", cases, "c12", timeout=3000)
     by = {c["id"]: c for c in cases}
     lines = []
